@@ -2211,9 +2211,6 @@ func (a *Association) handleInitAck(pkt *packet, initChunkAck *chunkInitAck) err
 	a.log.Tracef("[%s] updated cwnd=%d ssthresh=%d inflight=%d (INI)",
 		a.name, a.CWND(), a.ssthresh, a.inflightQueue.getNumBytes())
 
-	a.t1Init.stop()
-	a.storedInit = nil
-
 	a.peerInterleaving = false
 	a.peerForwardTSN = false
 	a.peerIForwardTSN = false
@@ -2249,8 +2246,14 @@ func (a *Association) handleInitAck(pkt *packet, initChunkAck *chunkInitAck) err
 		a.log.Warnf("[%s] not using ForwardTSN (on initAck)", a.name)
 	}
 	if cookieParam == nil {
+		// Not a usable INIT ACK: stay in COOKIE-WAIT with T1-init running, so that
+		// the INIT keeps being retransmitted and the connect attempt ends in
+		// bounded time either way.
 		return ErrInitAckNoCookie
 	}
+
+	a.t1Init.stop()
+	a.storedInit = nil
 
 	a.storedCookieEcho = &chunkCookieEcho{}
 	a.storedCookieEcho.cookie = cookieParam.cookie
